@@ -31,6 +31,7 @@ type leakCase struct {
 	Max     int    // routine limit (0 = none)
 	Calls   int    // repetitions
 	Variant int
+	End     int // how the search's context ends: 0 cancel(), 1 its deadline passes (context.WithTimeout), 2 its parent is cancelled
 }
 
 func (c leakCase) String() string {
@@ -43,7 +44,8 @@ func (c leakCase) String() string {
 	if c.Kind == "limit-reuse" && c.Take == -3 {
 		return fmt.Sprintf("limit %d: %d ConcatO searches of %d elements, each on its own child context that is cancelled afterwards, idle %dms in between", c.Max, c.Calls, c.N, c.Variant)
 	}
-	return fmt.Sprintf("%s n=%d take=%d max=%d calls=%d variant=%d", c.Kind, c.N, c.Take, c.Max, c.Calls, c.Variant)
+	return fmt.Sprintf("%s n=%d take=%d max=%d calls=%d variant=%d context-ends-by=%s", c.Kind, c.N, c.Take, c.Max, c.Calls, c.Variant,
+		[]string{"cancel()", "deadline", "cancel of the parent"}[c.End%3])
 }
 
 type leakObs struct {
@@ -303,6 +305,15 @@ func observeLeak(c leakCase) *leakObs {
 	default:
 		for k := 0; k < c.Calls; k++ {
 			ctx, cancel := context.WithCancel(context.Background())
+			switch c.End % 3 {
+			case 1: // the context ends because its deadline passes; cancel() below then comes too late to change ctx.Err()
+				ctx, cancel = context.WithTimeout(context.Background(), time.Duration(40+15*k)*time.Millisecond)
+			case 2: // the search runs on a child; it is the parent that gets cancelled
+				parent, cancelParent := context.WithCancel(context.Background())
+				child, cancelChild := context.WithCancel(parent)
+				_ = cancelChild
+				ctx, cancel = child, cancelParent
+			}
 			rctx := ctx
 			if c.Max > 0 {
 				rctx = gomini.SetMaxRoutines(ctx, c.Max)
@@ -343,6 +354,33 @@ func observeLeak(c leakCase) *leakObs {
 					})
 				})
 				time.Sleep(time.Duration(50+50*k) * time.Millisecond)
+			} else if c.Kind == "gomini-leftrec" {
+				// relations that recurse (eta-expanded, with a short pause per expansion) through the FIRST conjunct of a ConjO
+				// (variant 0), the CONDITION of an IfThenElseO (1), the THEN branch (2), or the first conjunct under a DisjO with a
+				// productive sibling (3): silent or productive infinite searches; then the context ends
+				var rel func(q *int) gomini.Goal
+				rel = func(q *int) gomini.Goal {
+					one := 1
+					rec := func(ctx context.Context, s *gomini.State, ss gomini.Stream) {
+						select {
+						case <-ctx.Done():
+							return
+						case <-time.After(150 * time.Microsecond):
+						}
+						rel(q)(ctx, s, ss)
+					}
+					switch c.Variant % 4 {
+					case 0:
+						return gomini.ConjO(rec, gomini.EqualO(q, &one))
+					case 1:
+						return gomini.IfThenElseO(rec, gomini.SuccessO, gomini.EqualO(q, &one))
+					case 2:
+						return gomini.IfThenElseO(gomini.EqualO(q, &one), rec, gomini.FailureO)
+					}
+					return gomini.DisjO(gomini.EqualO(q, &one), gomini.ConjO(rec, gomini.EqualO(q, q)))
+				}
+				ch = gomini.Run(rctx, gomini.NewState(), rel)
+				time.Sleep(time.Duration(10+10*k) * time.Millisecond)
 			} else if c.Kind == "gomini-elserec" {
 				// a relation that recurses through the ELSE branch (eta-expanded, as recursive Go relations are):
 				//   r(q) = if q = 1 and q = 2 then succeed else r(q)      - a silent infinite search; then cancel
@@ -398,6 +436,12 @@ func observeLeak(c leakCase) *leakObs {
 			if c.Take >= 0 && got >= c.Take && o.How == "closed" {
 				o.How = "cancelled"
 			}
+			if c.End%3 == 1 {
+				select { // let the deadline pass
+				case <-ctx.Done():
+				case <-time.After(3 * time.Second):
+				}
+			}
 			cancel()
 		}
 	}
@@ -439,6 +483,12 @@ func genLeakCases(cfg *Config, prop string) []leakCase {
 		cases = append(cases, leakCase{Kind: "gomini-ifte", Take: 1, Max: 2, Calls: 6, Variant: 0}, leakCase{Kind: "gomini-ifte", Take: 2, Max: 0, Calls: 4, Variant: 1},
 			leakCase{Kind: "gomini-ifte", Take: 0, Max: 3, Calls: 4, Variant: 1},
 			leakCase{Kind: "gomini-elserec", Take: 0, Max: 0, Calls: 3}, leakCase{Kind: "gomini-elserec", Take: 0, Max: 3, Calls: 2},
+			leakCase{Kind: "gomini-leftrec", Take: 0, Max: 0, Calls: 3, Variant: 0}, leakCase{Kind: "gomini-leftrec", Take: 0, Max: 0, Calls: 3, Variant: 1},
+			leakCase{Kind: "gomini-leftrec", Take: 0, Max: 20, Calls: 2, Variant: 2}, leakCase{Kind: "gomini-leftrec", Take: 2, Max: 0, Calls: 2, Variant: 3},
+			leakCase{Kind: "gomini-leftrec", Take: 0, Max: 0, Calls: 2, Variant: 0, End: 1},
+			leakCase{Kind: "gomini-infinite", Take: 1, Max: 0, Calls: 1, End: 1}, leakCase{Kind: "gomini-infinite", Take: 0, Max: 0, Calls: 1, Variant: 2, End: 1},
+			leakCase{Kind: "gomini-infinite", Take: 3, Max: 4, Calls: 1, End: 2}, leakCase{Kind: "gomini-ifte", Take: 1, Max: 0, Calls: 3, Variant: 1, End: 1},
+			leakCase{Kind: "gomini-finite", N: 6, Take: 2, Max: 0, Calls: 3, End: 1}, leakCase{Kind: "gomini-elserec", Take: 0, Max: 0, Calls: 2, End: 1},
 			leakCase{Kind: "gomini-traced", Take: 3, Max: 0, Calls: 3, Variant: 0}, leakCase{Kind: "gomini-traced", Take: 0, Max: 4, Calls: 2, Variant: 1},
 			leakCase{Kind: "gomini-open-streams", Take: 0, Max: 0, Calls: 5, Variant: 0}, leakCase{Kind: "gomini-open-streams", Take: 1, Max: 2, Calls: 5, Variant: 1})
 	} else {
@@ -473,9 +523,13 @@ func genLeakCases(cfg *Config, prop string) []leakCase {
 			case 1:
 				cases = append(cases, leakCase{Kind: "gomini-finite", N: 2 + r.Intn(8), Take: r.Intn(5) - 1, Max: pick(r, []int{0, 0, 2, 5}), Calls: 1 + r.Intn(5)})
 			case 2:
-				cases = append(cases, leakCase{Kind: "gomini-infinite", Take: r.Intn(6), Max: pick(r, []int{0, 0, 3, 8}), Calls: 1, Variant: r.Intn(4)})
+				if r.Intn(3) == 0 {
+					cases = append(cases, leakCase{Kind: "gomini-leftrec", Take: r.Intn(3), Max: pick(r, []int{0, 0, 10, 30}), Calls: 1 + r.Intn(3), Variant: r.Intn(4), End: r.Intn(3)})
+					continue
+				}
+				cases = append(cases, leakCase{Kind: "gomini-infinite", Take: r.Intn(6), Max: pick(r, []int{0, 0, 3, 8}), Calls: 1, Variant: r.Intn(4), End: r.Intn(3)})
 			case 3:
-				cases = append(cases, leakCase{Kind: "gomini-ifte", Take: r.Intn(4), Max: pick(r, []int{0, 2, 3}), Calls: 2 + r.Intn(5), Variant: r.Intn(2)})
+				cases = append(cases, leakCase{Kind: "gomini-ifte", Take: r.Intn(4), Max: pick(r, []int{0, 2, 3}), Calls: 2 + r.Intn(5), Variant: r.Intn(2), End: r.Intn(3)})
 			default:
 				cases = append(cases, leakCase{Kind: "gomini-open-streams", Take: r.Intn(2), Max: pick(r, []int{0, 2}), Calls: 2 + r.Intn(5), Variant: r.Intn(2)})
 			}
